@@ -56,6 +56,19 @@ def symbols(with_te=True, junk=True):
     return s
 
 
+# Lines that are valid ONLY where C11 says they are not looked at (6.10.1p6: in a skipped group "directives are
+# processed only through the name that determines the directive ... the rest of the directives' preprocessing tokens
+# are ignored, as are the other preprocessing tokens in the group"): each would be a hard error if processed.
+SKIPPED_ONLY = [("dead", "#error E"), ("dead", '#include "nonexistent.h"'), ("dead", "#nonsense directive"),
+                ("dead", "#define X("), ("dead", "#line x"),
+                ("if", "1 +"), ("if", "(1 / 0"), ("elif", "1 +"), ("elif", "1 / 0")]
+
+
+def symbols_dead():
+    """Alphabet for the 'skipped groups have no effect' enumeration: junk-free core + lines valid only when skipped."""
+    return symbols(with_te=False, junk=False) + SKIPPED_ONLY
+
+
 INIT = ((), False, False)      # (stack, xdef, after_te)
 
 
@@ -66,6 +79,13 @@ def active(stack):
 def enabled(state, sym, maxdepth):
     stack = state[0]
     k = sym[0]
+    if k == "dead":
+        return not active(stack)
+    if k == "if" and sym[1] not in CONDS:
+        return len(stack) < maxdepth and not active(stack)          # operand garbage: only where it is not evaluated
+    if k == "elif" and sym[1] not in CONDS:
+        # evaluated unless the enclosing group is skipped or an earlier group of this conditional was taken
+        return bool(stack) and stack[-1][0] != ELSE and (not active(stack[:-1]) or stack[-1][1])
     if k in ("if", "ifdef", "ifndef"):
         return len(stack) < maxdepth
     if k in ("elif", "else"):
@@ -83,6 +103,8 @@ def step(state, sym):
     act = active(stack)
     if k == "te":
         return (stack, xdef, act), act
+    if k == "dead":
+        return (stack, xdef, False), act
     if k in ("if", "ifdef", "ifndef"):
         if not act:
             # nested conditional inside a skipped group: only its nesting matters; taken is normalised to True
@@ -123,6 +145,8 @@ def render(sym, i):
     k = sym[0]
     if k == "te":
         return "P%d E\n" % i
+    if k == "dead":
+        return "%s\nP%d\n" % (sym[1], i)
     if k == "if":
         d = "#if " + sym[1]
     elif k == "elif":
@@ -214,8 +238,9 @@ def transition_cover(maxdepth, syms, k=1):
         yield from ext(st, list(p), k)
 
 
-def enumerate_sequences(prefix, n, maxdepth, syms, need_te=False):
-    """All well-nested sequences of length <= n extending `prefix` (prefix itself included when len(prefix) >= 1)."""
+def enumerate_sequences(prefix, n, maxdepth, syms, need=None):
+    """All well-nested sequences of length <= n extending `prefix` (prefix itself included when len(prefix) >= 1);
+    need: only sequences containing at least one symbol of this set."""
     st = INIT
     for s in prefix:
         if not enabled(st, s, maxdepth):
@@ -223,7 +248,7 @@ def enumerate_sequences(prefix, n, maxdepth, syms, need_te=False):
         st, _ = step(st, s)
 
     def rec(seq, st, has_te):
-        if seq and (has_te or not need_te):
+        if seq and (has_te or not need):
             yield tuple(seq)
         if len(seq) >= n:
             return
@@ -231,9 +256,9 @@ def enumerate_sequences(prefix, n, maxdepth, syms, need_te=False):
             if enabled(st, s, maxdepth):
                 st2, _ = step(st, s)
                 seq.append(s)
-                yield from rec(seq, st2, has_te or s[0] == "te")
+                yield from rec(seq, st2, has_te or (need is not None and s in need))
                 seq.pop()
-    yield from rec(list(prefix), st, any(s[0] == "te" for s in prefix))
+    yield from rec(list(prefix), st, need is not None and any(s in need for s in prefix))
 
 
 # =====================================================================================================
@@ -388,7 +413,7 @@ class Reject(Exception):
     """The translation unit is invalid (file not found, stray directive ...): no token stream is defined."""
 
 
-_TOK = re.compile(r"[A-Za-z_][A-Za-z0-9_]*|\d+|\S")
+_TOK = re.compile(r"[A-Za-z_][A-Za-z0-9_]*|\d+|==|!=|\S")
 
 
 def lex(s):
@@ -403,11 +428,13 @@ class Cpp:
         self.files = files
         self.chain = list(chain)
         self.macros = dict(macros or {})
+        self.fmacros = {}           # name -> (parameter, body tokens)
         self.once = set()
         self.out = []
         self.maxdepth = maxdepth
         self.depth = 0
         self.included = []          # resolved paths in inclusion order
+        self.events = []            # (directive, quote, name, resolved path, chain index, len(out) at that point)
 
     # ---- lookup ---------------------------------------------------------
     def _find(self, name, start):
@@ -429,7 +456,27 @@ class Cpp:
         return self._find(name, 0)
 
     # ---- expressions of the restricted #if language ----------------------
+    def expand(self, t):
+        """Object-like macros with a one-token body: rescan until the name is not a macro (or is painted)."""
+        seen = set()
+        while t in self.macros and t not in seen:
+            seen.add(t)
+            t = self.macros[t]
+        return t
+
+    def _atom(self, t):
+        t = self.expand(t)
+        if t == "":
+            raise Reject("empty operand in #if")
+        if t[0].isdigit():
+            return int(t, 0)
+        if t[0].isalpha() or t[0] == "_":
+            return 0
+        raise Undef("cond atom")
+
     def _cond(self, toks):
+        if len(toks) == 3 and toks[1] in ("==", "!="):
+            return (self._atom(toks[0]) == self._atom(toks[2])) == (toks[1] == "==")
         neg = False
         while toks and toks[0] == "!":
             neg = not neg
@@ -438,14 +485,9 @@ class Cpp:
             t = [x for x in toks[1:] if x not in "()"]
             if len(t) != 1:
                 raise Undef("cond")
-            v = t[0] in self.macros
+            v = t[0] in self.macros or t[0] in self.fmacros
         elif len(toks) == 1:
-            t = toks[0]
-            if t in self.macros:
-                t = self.macros[t]
-                if t == "":
-                    raise Reject("empty #if")
-            v = (int(t, 0) != 0) if t[0].isdigit() else False
+            v = self._atom(toks[0]) != 0
         else:
             raise Undef("cond")
         return v != neg
@@ -474,12 +516,30 @@ class Cpp:
             act = all(f[2] for f in stack)
             if toks[0] != "#":
                 if act:
-                    for t in toks:
-                        if t in self.macros:
-                            if self.macros[t] != "":
-                                self.out.append(self.macros[t])
-                        else:
-                            self.out.append(t)
+                    i = 0
+                    while i < len(toks):
+                        t = toks[i]
+                        i += 1
+                        fn = self.fmacros.get(t)
+                        if fn and i < len(toks) and toks[i] == "(":
+                            # one-parameter function-like macro, argument without commas; no rescanning needed here
+                            depth, j = 0, i
+                            while True:
+                                depth += {"(": 1, ")": -1}.get(toks[j], 0)
+                                if depth == 0:
+                                    break
+                                j += 1
+                            arg = toks[i + 1:j]
+                            for b in fn[1]:
+                                for x in (arg if b == fn[0] else [b]):
+                                    x = self.expand(x)          # rescan: object-like macros only
+                                    if x != "":
+                                        self.out.extend(lex(x))
+                            i = j + 1
+                            continue
+                        t = self.expand(t)
+                        if t != "":
+                            self.out.extend(lex(t))
                 continue
             d = toks[1] if len(toks) > 1 else ""
             a = toks[2:]
@@ -487,7 +547,7 @@ class Cpp:
                 if not act:
                     stack.append([THEN, True, False])
                 else:
-                    v = self._cond(a) if d == "if" else ((a[0] in self.macros) == (d == "ifdef"))
+                    v = self._cond(a) if d == "if" else ((a[0] in self.macros or a[0] in self.fmacros) == (d == "ifdef"))
                     stack.append([THEN, v, v])
             elif d == "elif":
                 if not stack or stack[-1][0] == ELSE:
@@ -514,10 +574,15 @@ class Cpp:
                 stack.pop()
             elif not act:
                 continue
+            elif d == "define" and re.match(r"\s*#\s*define\s+\w+\(\w+\)", line):
+                self.macros.pop(a[0], None)
+                self.fmacros[a[0]] = (a[2], a[4:])
             elif d == "define":
+                self.fmacros.pop(a[0], None)
                 self.macros[a[0]] = "".join(a[1:]) if len(a) > 1 and a[1] in ('"', "<") else (a[1] if len(a) > 1 else "")
             elif d == "undef":
                 self.macros.pop(a[0], None)
+                self.fmacros.pop(a[0], None)
             elif d == "pragma":
                 if a and a[0] == "once":
                     self.once.add(path)
@@ -536,6 +601,7 @@ class Cpp:
                 if nxt and primary:
                     raise Undef("#include_next in the primary file")
                 p, i = self.resolve(name, quote, path, idx, nxt)
+                self.events.append((d, quote, name, p, i, len(self.out)))
                 self.process(p, i)
             else:
                 raise Undef("directive " + d)
